@@ -37,6 +37,9 @@ type ledBatch struct {
 	// AsyncMidi: MIDI-input messages are handed over without the sentinel that waits until they are processed,
 	// so that nothing the harness does orders the MIDI-input goroutine before the next key event (race detection)
 	AsyncMidi bool `json:"async_midi"`
+	// Flood: the MIDI-input channel is buffered (deeply: the senders must stay ahead of the device) and twelve senders keep
+	// it non-empty from before the disconnect until ProcessEvents has returned: dense MIDI input arriving at the end of life
+	Flood bool `json:"flood"`
 	// Server: behaviour of the fake OpenRGB server ("" | "nocontroller" | "other"), see fakeORGB.mode
 	Server string `json:"server"`
 }
@@ -170,6 +173,9 @@ func cmdLed(args []string) error {
 			r := &devRun{in: make(chan *input.InputEvent), out: make(chan midi.Event, 8192), sigs: make(chan os.Signal, 64),
 				done: make(chan string, 1)}
 			midiIn := make(chan midi.Event)
+			if b.Flood {
+				midiIn = make(chan midi.Event, 65536) // deep enough for the senders to stay ahead of the device
+			}
 			di := input.NewDeviceInfoVerif("verif", "usb-verif/input0", b.Event, input.InputID{Bus: 3, Vendor: 1, Product: 2, Version: 1},
 				[]evdev.EvType{evdev.EV_SYN, evdev.EV_KEY, evdev.EV_MSC, evdev.EV_LED, evdev.EV_REP})
 			idev := input.Device{Name: "verif", DeviceType: input.KeyboardDevice, Handlers: []input.Handler{{Name: "", DeviceInfo: di}},
@@ -209,7 +215,7 @@ func cmdLed(args []string) error {
 					res.stepOut = stepOut{Ev: "midiin", O: [][]int{}}
 					res.MsgIn = st.Msg
 					ms := []midi.Event{msg, {midi.TimingClock}} // the second send returns once the first is processed
-					if b.AsyncMidi {
+					if b.AsyncMidi || b.Flood {
 						ms = ms[:1]
 					}
 					for _, m := range ms {
@@ -223,11 +229,27 @@ func cmdLed(args []string) error {
 					res.O, res.Sg = r.drain()
 					res.St = r.state()
 				case "disconnect":
+					stopFlood := make(chan struct{})
+					if b.Flood {
+						for g := 0; g < 12; g++ {
+							go func(g int) {
+								for i := 0; ; i++ {
+									select {
+									case midiIn <- midi.Event{byte(0x90 + g), byte(36 + i%24), byte(1 + i%100)}:
+									case <-stopFlood:
+										return
+									}
+								}
+							}(g)
+						}
+						time.Sleep(20 * time.Millisecond)
+					}
 					t0 := time.Now()
 					q0 := atomic.LoadInt64(&srv.reqs)
 					so, _ := r.step(st.devInput)
 					res.stepOut = so
 					res.ReturnMs = time.Since(t0).Milliseconds()
+					close(stopFlood)
 					alive = false
 					time.Sleep(30 * time.Millisecond) // the final (all red) frame is written just before the LED goroutine ends
 					res.Leftover = deviceGoroutines()
